@@ -80,7 +80,11 @@ def compose(epoch, up, rev):
 
 PIECES_OK = ["1", "0", "2", "10", "1.0", "2.3.4", "a", "rc1", "~", "~rc2", "+", "+b1", ".", "1.2+dfsg",
              "ubuntu1", "0ubuntu1", "Z", "9z"]
-FOREIGN = [" ", "\n", "_", "é", "١", "１", "\t", "/", "²", "(", "\r"]
+FOREIGN = [" ", "\n", "_", "é", "١", "１", "\t", "/", "²", "(", "\r",
+           # letters that case-fold to ASCII letters, full-width forms, other look-alikes
+           "\u212a", "\u017f", "\u0131", "\u0130", "ａ", "Ｚ", "\u00df", "\u2160", "\x0c", "\x00"]
+LONG_EPOCHS = ["2147483647", "2147483648", "4294967296", "99999999999999999999",
+               "0" * 30 + "7", "9" * 4400]
 
 
 def _gen_part(rng, kind):
@@ -89,8 +93,10 @@ def _gen_part(rng, kind):
     if kind == "epoch":
         if r < 0.25:
             return None
-        if r < 0.65:
+        if r < 0.62:
             return rng.choice(["0", "1", "2", "10", "007"])
+        if r < 0.65:
+            return rng.choice(LONG_EPOCHS[:5] if rng.random() < 0.9 else LONG_EPOCHS)
         if r < 0.72:
             return ""
         return rng.choice(["a", "-1", "1 ", "١", "１", "1\n", "1:", ":", "1.0", "+1", " 1"])
@@ -116,6 +122,8 @@ def _gen_part(rng, kind):
     # full string
     if r < 0.45:
         e = rng.choice([None, None, "0", "1", "12"])
+        if rng.random() < 0.04:
+            e = rng.choice(LONG_EPOCHS[:5] if rng.random() < 0.9 else LONG_EPOCHS)
         u = "".join(rng.choice(PIECES_OK) for _ in range(rng.randint(1, 3)))
         if rng.random() < 0.2:
             u += "-" + rng.choice(PIECES_OK)
